@@ -1,2 +1,78 @@
-(* PropsC15.v — C15: Path, Parent, FlattenedKeys and diff always describe the actual structure. *)
-From Ucfg Require Import Base ParseInt Consts Field Tree PathOps Merge OTree Ops Keys.
+(* PropsC15.v — C15: Path, Parent, FlattenedKeys and diff always describe the actual structure.
+   Statements only; proofs are in ProofsKeys.v. *)
+From Ucfg Require Import Base ParseInt Consts Field Tree PathOps Merge OTree Ops Keys ProofsTree ProofsKeys.
+
+(* When every stored field name equals the actual key / index ([names_ok]) and every node is
+   a dictionary or a list ([pure], no references), FlattenedKeys (computed from the STORED
+   names, as the implementation does) returns exactly the root-relative POSITIONAL paths of
+   the non-nil primitive settings - for every tree, of any depth. *)
+Theorem c15_flattened_keys_are_leaf_paths : forall sep v pp,
+  names_ok v = true -> pure v = true -> flat_keys sep pp v = Ok (leaf_paths sep pp v).
+Proof. exact flat_keys_leaf_paths. Qed.
+Print Assumptions c15_flattened_keys_are_leaf_paths.
+
+(* The invariant "stored name = actual position" is kept by the operations of a history: *)
+(* - a write of a fresh value under a name *)
+Theorem c15_names_kept_by_named_write : forall n pp d a v node',
+  names_ok (VSub d a) = true -> names_ok v = true ->
+  set_field (FName n) pp (VSub d a) None v = Ok node' -> names_ok node' = true.
+Proof. exact set_field_name_names_ok. Qed.
+Print Assumptions c15_names_kept_by_named_write.
+
+(* - removal of a named key *)
+Theorem c15_names_kept_by_named_removal : forall n d a b node',
+  names_ok (VSub d a) = true ->
+  remove_field (FName n) (VSub d a) = Ok (b, node') -> names_ok node' = true.
+Proof. exact remove_name_names_ok. Qed.
+Print Assumptions c15_names_kept_by_named_removal.
+
+(* - removal from the middle of a list: the entries that move down are renumbered *)
+Theorem c15_names_kept_by_list_removal : forall i d a b node',
+  names_ok (VSub d a) = true ->
+  remove_field (FIdx i) (VSub d a) = Ok (b, node') -> names_ok node' = true.
+Proof. exact remove_index_names_ok. Qed.
+Print Assumptions c15_names_kept_by_list_removal.
+
+(* - array append / prepend merges, which move elements *)
+Theorem c15_names_kept_by_append : forall a1 l2,
+  arr_ok 0 a1 = true -> forallb (fun e => names_ok (snd e)) l2 = true ->
+  arr_ok 0 (a1 ++ renumber (lenZ a1) l2) = true.
+Proof. exact append_names_ok. Qed.
+Print Assumptions c15_names_kept_by_append.
+
+Theorem c15_names_kept_by_prepend : forall a1 l2,
+  forallb (fun e => names_ok (snd e)) a1 = true -> forallb (fun e => names_ok (snd e)) l2 = true ->
+  arr_ok 0 (renumber 0 (l2 ++ a1)) = true.
+Proof. exact prepend_names_ok. Qed.
+Print Assumptions c15_names_kept_by_prepend.
+
+(* CompareConfigs partitions the keys: kept = in both, added = only in the new config,
+   removed = only in the old one (so the three are disjoint and exhaustive) ... *)
+Theorem c15_diff_keep : forall k o n, In k (diff_keep o n) <-> In k o /\ In k n.
+Proof. exact diff_keep_in. Qed.
+Print Assumptions c15_diff_keep.
+
+Theorem c15_diff_add : forall k o n, In k (diff_add o n) <-> In k n /\ ~ In k o.
+Proof. exact diff_add_in. Qed.
+Print Assumptions c15_diff_add.
+
+Theorem c15_diff_remove : forall k o n, In k (diff_remove o n) <-> In k o /\ ~ In k n.
+Proof. exact diff_remove_in. Qed.
+Print Assumptions c15_diff_remove.
+
+(* ... and a config compared with an equal one reports no change. *)
+Theorem c15_diff_refl : forall o, diff_add o o = [] /\ diff_remove o o = [].
+Proof. intro o. split; [exact (diff_refl_add o)|exact (diff_refl_remove o)]. Qed.
+Print Assumptions c15_diff_refl.
+
+(* Non-vacuity, and the statement that was false before the fix of F12a:
+   {l:[{x:0},{x:1},{x:2}]} after Remove("l", 0). *)
+Example c15_ex_remove_middle :
+  let t := VSub [("l", ("l", VSub [] (Some [("0", VSub [("x", ("x", VUint 0))] None);
+                                            ("1", VSub [("x", ("x", VUint 1))] None);
+                                            ("2", VSub [("x", ("x", VUint 2))] None)])))] None in
+  match remove_go [FName "l"; FIdx 0] "" t with
+  | Ok (true, t') => names_ok t' = true /\ flattened_keys "." t' = Ok ["l.0.x"; "l.1.x"]
+  | _ => False
+  end.
+Proof. vm_compute. split; reflexivity. Qed.
